@@ -130,6 +130,38 @@ fn boundary(rng: &mut ChaCha20Rng, key: &Key) -> (Vec<(B, B)>, Vec<(B, B)>) {
     (adds, muls)
 }
 
+/// scalars with structure at the 64-bit limb boundaries (all below N): powers of two around every boundary, values whose
+/// interior limbs are zero, values with a single non-zero limb, the largest scalars
+fn limb_scalars(rng: &mut ChaCha20Rng, key: &Key) -> Vec<B> {
+    let n = &key.n;
+    let bits = n.bits() as u32;
+    let mut v: Vec<B> = Vec::new();
+    let mut push = |x: B| { if &x < n && !v.contains(&x) { v.push(x); } };
+    let mut w = 64;
+    while w <= bits + 1 {
+        for x in [pow2(w - 1), pow2(w) - bu(1), pow2(w), pow2(w) + bu(1)] { push(x); }
+        w += 64;
+    }
+    let limbs = ((bits + 63) / 64) as usize;
+    // a random scalar with limb j cleared (j below the top limb), and with only limbs 0 and top kept
+    for j in 0..limbs.saturating_sub(1) {
+        let k = rng.gen_biguint_below(n);
+        let mask = ((pow2(64) - bu(1)) << (64 * j)) as B;
+        let cleared = &k - (&k & &mask);
+        push(cleared);
+        if j + 1 < limbs {
+            push(pow2(64 * (j as u32 + 1)) * bu(rng.gen_range(1..u32::MAX) as u64));   // single non-zero limb j+1
+        }
+    }
+    if limbs > 2 {
+        let top = n >> (64 * (limbs - 1));
+        if top > bu(1) { push(((&top - bu(1)) << (64 * (limbs - 1))) + bu(5)); }      // top and bottom limb only
+    }
+    push(n - bu(2));
+    push(n >> 1usize);
+    v
+}
+
 pub fn run(kv: &Args) -> i32 {
     let seed = kv.u64("seed", 1);
     let out_dir = kv.str("out", "/verif/build/run/C08");
@@ -241,6 +273,12 @@ pub fn run(kv: &Args) -> i32 {
                         prop_mul(imp, key, m, &r1, k, &mut out, i < 2);
                     }
                 }
+                // the neutral ciphertext 1 on either side of add
+                if let Some(c) = enc_of(imp, key, "add-one", &adds[0].0, &r1, &mut out) {
+                    let prop = format!("addc {} {} 0 1", hx(&adds[0].0), hx(&c));
+                    prop_add_c(imp, key, &prop, &adds[0].0, &c, &bu(0), &bu(1), &mut out, false);
+                    prop_add_c(imp, key, &prop, &bu(0), &bu(1), &adds[0].0, &c, &mut out, false);
+                }
                 for _ in 0..cnt.saturating_sub(7) {
                     let (a, b, k) = (rng.gen_biguint_below(&key.n), rng.gen_biguint_below(&key.n), rng.gen_biguint_below(&key.n));
                     let (r1, r2) = (rand_unit(&mut rng, key), rand_unit(&mut rng, key));
@@ -257,6 +295,29 @@ pub fn run(kv: &Args) -> i32 {
                 for (i, (m, k)) in muls.iter().enumerate() {
                     let r = rand_unit(&mut rng, key);
                     prop_mul(imp, key, m, &r, k, &mut out, i < *ncoq);
+                }
+                // scalars with limb structure (zero interior limbs, powers of two at the limb boundaries, top bit set)
+                let ks = limb_scalars(&mut rng, key);
+                let m = rng.gen_biguint_below(&key.n);
+                let r = rand_unit(&mut rng, key);
+                if let Some(c) = enc_of(imp, key, "mul-limb", &m, &r, &mut out) {
+                    for (i, k) in ks.iter().enumerate() {
+                        let prop = format!("mul {} {} {}", hx(&m), hx(&r), hx(k));
+                        prop_mul_c(imp, key, &prop, &m, &c, k, &mut out, *ncoq > 0 && i % 16 == 3);
+                    }
+                    // the neutral ciphertext 1 = Enc(0; 1) = c^0 on either side of add, and the special values N+1, N^2-1
+                    let one = bu(1);
+                    let specials: Vec<(B, B)> = vec![(bu(0), one.clone()), (bu(1) % &key.n, &key.n + bu(1)), (bu(0), &key.nn - bu(1))];
+                    for (j, (ms, cs)) in specials.iter().enumerate() {
+                        let prop = format!("addc {} {} {} {}", hx(&m), hx(&c), hx(ms), hx(cs));
+                        prop_add_c(imp, key, &prop, &m, &c, ms, cs, &mut out, *ncoq > 0 && j == 0);
+                        prop_add_c(imp, key, &prop, ms, cs, &m, &c, &mut out, *ncoq > 0 && j == 0);
+                        prop_add_c(imp, key, &prop, ms, cs, ms, cs, &mut out, false);
+                    }
+                    if let Some(z) = imp.mul(&c, &bu(0)).val() {
+                        let prop = format!("addc {} {} 0 {}", hx(&m), hx(&c), hx(z));
+                        prop_add_c(imp, key, &prop, &m, &c, &bu(0), z, &mut out, false);
+                    }
                 }
             }
         }
